@@ -314,6 +314,20 @@ type c12Case struct {
 }
 
 func checkRoundTrip(t *rapid.T, typ string, x interface{}, sig string, nontrivial bool) {
+	// sometimes a structurally corrupted encoding of the value is decoded first (accepted or
+	// rejected, it does not matter): what a decoder did before must not show in the next value
+	if rapid.IntRange(0, 3).Draw(t, "aftercorrupted") == 0 {
+		if enc, err := json.Marshal(x); err == nil {
+			bad, _ := kit.CorruptJSON(t, enc, 2, nil)
+			p := reflect.New(reflect.TypeOf(x))
+			func() {
+				defer func() { _ = recover() }() // panics are C19's business
+				if json.Unmarshal(bad, p.Interface()) != nil {
+					kit.Label("C12", "decoded-after-a-rejected-encoding")
+				}
+			}()
+		}
+	}
 	y, b, err := roundTrip(x)
 	kase := c12Case{Type: typ, JSON: string(b), Go: fmt.Sprintf("%#v", x), Sig: sig}
 	if err != nil {
